@@ -105,6 +105,16 @@ func TestMain(m *testing.M) {
 	os.Exit(code)
 }
 
+// podName is the string of message idx of a client: two clients in three send long strings (above
+// the 255-byte limit of the short length prefix), each client of its own length.
+func podName(client, idx int) string {
+	s := fmt.Sprintf("c%d-m%d", client, idx)
+	if client%3 != 0 {
+		s += strings.Repeat("x", 250+(client*37+idx)%700)
+	}
+	return s
+}
+
 func message(client, idx int) []byte {
 	h := ref.Header{Domain: uint32(client + 1), Seq: uint32(idx), ExportTime: 1700000000}
 	if idx == 0 {
@@ -114,7 +124,7 @@ func message(client, idx int) []byte {
 	for _, f := range fields {
 		switch {
 		case f.Type == ref.TString:
-			vals = append(vals, ref.Value{B: []byte(fmt.Sprintf("c%d-m%d", client, idx))})
+			vals = append(vals, ref.Value{B: []byte(podName(client, idx))})
 		case f.Type.IsBytes():
 			vals = append(vals, ref.Value{B: []byte{10, byte(client), byte(idx >> 8), byte(idx)}})
 		default:
@@ -536,8 +546,8 @@ func checkContent(m *entities.Message) *ev.Failure {
 				return ev.Failf("client %d message %d carries the payload of client %d message %d (messages mixed up between connections)", client, idx, v>>32, v&0xFFFFFFFF)
 			}
 		case "sourcePodName":
-			if v := el.GetStringValue(); v != fmt.Sprintf("c%d-m%d", client, idx) {
-				return ev.Failf("client %d message %d carries string %q", client, idx, v)
+			if v := el.GetStringValue(); v != podName(client, idx) {
+				return ev.Failf("client %d message %d carries a string of %d bytes that begins %q, sent were %d bytes", client, idx, len(v), v[:min(len(v), 24)], len(podName(client, idx)))
 			}
 		}
 	}
